@@ -202,8 +202,11 @@ def _aniso_config(rng, allow_origin_node):
 
 
 def _mol_config(rng):
-    kind = _pick(rng, ["cc-becke", "simpson-becke"])
-    n = _pick(rng, [100, 120]) if kind == "cc-becke" else _pick(rng, [201, 251])
+    # molecular grids: radial rules WITHOUT a node at the trimmed infinity (Clenshaw-Curtis / Simpson / trapezoid through
+    # BeckeRTransform put their last node at r = 1e16, where Becke weights are beyond floating-point resolution of the
+    # geometry - inf or NaN for some geometries; recorded by C06 as outside its decided domain |r| <= 1e12)
+    kind = "gl-becke"
+    n = _pick(rng, [100, 120])
     return {"kind": kind, "n": n, "rmin": _pick(rng, [1e-5, 1e-6]), "R": _pick(rng, [1.0, 1.5])}, {"include_origin": False, "rlp": 1e6}
 
 
@@ -685,7 +688,7 @@ def _run_robust(ctx, family, params):
     atn = [int(z) for z in params["atnums"]]
     mol = params["mol"]
     if mol:
-        spec = {"kind": "cc-becke", "n": 100, "rmin": 1e-5, "R": 1.5}
+        spec = {"kind": "gl-becke", "n": 100, "rmin": 1e-5, "R": 1.5}  # no node at the trimmed infinity, see _mol_config
         rg, tf, r0, rmax = make_radial(spec)
         coords = _geometry(rng, len(atn))
         grid = _molgrid(rg, params["degree"], atn, coords)
